@@ -78,6 +78,12 @@ CLAIMS = {
         ref='5 C12', engine='xh+bsx',
         technique='symbolic execution: bsx validity queries on the real decoder + CrossHair exploration of the real '
                   'dispatch code with symbolic packet fields'),
+    'C05': dict(
+        text='Bounded symbolic execution of the real event path of Server and AsyncServer (dispatch, binary reassembly, '
+             'handler invocation, ACK construction) for every responsible party, id kind (None, 0, symbolic, huge), '
+             'argument shape with bytes, return form (incl. falsy values the solver picks) and connected/unconnected '
+             'namespace, for one event and for two consecutive events; exhaustive within the palette.',
+        ref='5 C05', technique='symbolic execution (CrossHair+z3) of the real event dispatch vs reference expectations'),
 }
 
 PENDING = 'check not built yet in this tree (work in progress); no claim is made'
